@@ -83,6 +83,17 @@ impl<T: FileReader> RVParser<T> {
         }
     }
 
+    /// Create the lexer for the text of a file
+    ///
+    /// A final line that is not terminated by a newline is read as if it were,
+    /// so that its statement is parsed (or reported) like any other line.
+    fn lexer_for(mut text: String, id: Uuid) -> Lexer {
+        if !text.is_empty() && !text.ends_with('\n') {
+            text.push('\n');
+        }
+        Lexer::new(text, id)
+    }
+
     /// Skip the rest of the line
     ///
     /// This is used to recover from parse errors. If there is a parse error,
@@ -111,7 +122,7 @@ impl<T: FileReader> RVParser<T> {
 
         // import base lexer
         let lexer = match self.reader.import_file(base, None) {
-            Ok(x) => Lexer::new(x.1, x.0),
+            Ok(x) => Self::lexer_for(x.1, x.0),
             Err(e) => {
                 parse_errors.push(e.to_parse_error(With::new(base.to_owned(), Token::default())));
                 return (nodes, parse_errors);
@@ -136,7 +147,7 @@ impl<T: FileReader> RVParser<T> {
                             match self.reader.import_file(path.get(), Some(path.file())) {
                                 Ok((new_uuid, new_text)) => {
                                     self.lexer_stack
-                                        .push(Lexer::new(new_text, new_uuid).peekable());
+                                        .push(Self::lexer_for(new_text, new_uuid).peekable());
                                 }
                                 Err(error) => {
                                     parse_errors.push(error.to_parse_error(path.clone()));
